@@ -547,7 +547,7 @@ func init() {
 	vh.Register(&vh.Check{
 		ID: "C16", Level: "model_checking",
 		Technique: "exhaustive enumeration of receivers x allow-lists x candidate names (every case / prefix variant of every method, unexported and promoted methods, other receivers' names) and of arities x JSON kinds per position on instrumented receivers, on the production registration in process, and against the real pool binary over HTTP and WebSocket",
-		Rule:      "toy: 3 prefixes x 9 allow-lists x ~150 candidate names; 6 methods x arities 0..n+1 x 9 JSON kinds per position (full product up to arity 2, one position at a time above); production: 10 methods x arities x kinds with a pool digest before/after; binary: every exported method of VipnodePool / PaymentService / PoolStatus and guessed helper names x 4 prefixes x 4 spellings over both transports; distinct = (allow-list size, expected?, code) etc.",
+		Rule:      "toy: 3 prefixes x 9 allow-lists x ~150 candidate names; 6 methods x arities 0..n+1 x 9 JSON kinds per position (full product up to arity 2, one position at a time above); production: 10 methods x arities x kinds with a pool digest before/after; binary: every exported method of VipnodePool / PaymentService / PoolStatus and guessed helper names x 4 prefixes x 4 spellings over both transports; distinct = (allow-list size, expected?, code) etc.; the agent binary's reverse-callable set (harness = pool end of its WebSocket; only vipnode_whitelist may answer); receivers with interface-typed parameters",
 		Assumptions: []string{
 			"a JSON null in a non-pointer parameter position is observed, not judged",
 			"'wrongly typed' means encoding/json cannot decode the value into the declared Go type",
